@@ -789,6 +789,46 @@ fn huge_points(st: &mut Stats, rng: &mut Rng) {
     st.count("huge-point-cases");
 }
 
+/// Exactly representable products of coefficients of very different magnitude: a has coefficients s_i * 2^(e_i), |e_i| <= 60,
+/// b is a single term c x^k stored at any length (all other coefficients zero). Every coefficient of a*b is ONE product
+/// a_i * c, exactly representable; a scheme that first adds coefficients of different magnitude (Karatsuba-type splitting)
+/// loses them.
+fn wide_spread_products(st: &mut Stats, rng: &mut Rng) {
+    st.next_case();
+    let (la, lb) = (rng.usize(1, 9), rng.usize(1, 9));
+    let k = rng.usize(0, lb - 1);
+    let a: Vec<f64> = (0..la).map(|_| if rng.chance(0.15) { 0.0 } else { rng.nzint(7) as f64 * 2f64.powi(rng.int(-60, 60) as i32) }).collect();
+    let c = rng.nzint(5) as f64 * 2f64.powi(rng.int(-20, 20) as i32);
+    let mut b = vec![0.0f64; lb]; b[k] = c;
+    let mut want = vec![0.0f64; la + lb - 1];
+    for i in 0..la { want[i + k] = a[i] * c; }
+    let cf = |p: &Polynomial<f64>| (0..p.size()).map(|i| p[i]).collect::<Vec<f64>>();
+    let (pa, pb) = (Polynomial::new(a.clone()), Polynomial::new(b.clone()));
+    for (name, out) in [("mul(&a,&b)", catch(|| cf(&(&pa * &pb)))), ("mul(&b,&a)", catch(|| cf(&(&pb * &pa)))), ("mul(a,b)", catch(|| cf(&(pa.clone() * pb.clone()))))] {
+        st.eval();
+        match out {
+            Outcome::Ok(g) => if g.len() != want.len() || g.iter().zip(&want).any(|(x, y)| x != y) { st.violation("C11:mul:f64:wide-spread", format!("{} = {:?}, expected {:?} (every coefficient is a single exactly representable product); a={:?} b={:?}", name, g, want, a, b)); return; },
+            o => { st.violation("C11:mul:f64:wide-spread", format!("{} {}; a={:?} b={:?}", name, o.describe(), a, b)); return; }
+        }
+    }
+    // Complex<f64>: a with real and imaginary parts of different magnitude, b = c x^k with c in {1, i, -1, 2i}
+    let az: Vec<Cmplx> = (0..la).map(|i| Cmplx::new(a[i], a[(i + 1) % la] * 0.5)).collect();
+    let cz = *rng.pick(&[Cmplx::new(1.0, 0.0), Cmplx::new(0.0, 1.0), Cmplx::new(-1.0, 0.0), Cmplx::new(0.0, 2.0)]);
+    let mut bz = vec![Cmplx::new(0.0, 0.0); lb]; bz[k] = cz;
+    let mut wz = vec![Cmplx::new(0.0, 0.0); la + lb - 1];
+    for i in 0..la { wz[i + k] = az[i] * cz; }
+    let cz_of = |p: &Polynomial<Cmplx>| (0..p.size()).map(|i| p[i]).collect::<Vec<Cmplx>>();
+    let (qa, qb) = (Polynomial::new(az.clone()), Polynomial::new(bz.clone()));
+    for (name, out) in [("mul(&a,&b)", catch(|| cz_of(&(&qa * &qb)))), ("mul(&b,&a)", catch(|| cz_of(&(&qb * &qa))))] {
+        st.eval();
+        match out {
+            Outcome::Ok(g) => if g.len() != wz.len() || g.iter().zip(&wz).any(|(x, y)| x.real != y.real || x.imag != y.imag) { st.violation("C11:mul:Cmplx:wide-spread", format!("{} = {:?}, expected {:?}; a={:?} b={:?}", name, g, wz, az, bz)); return; },
+            o => { st.violation("C11:mul:Cmplx:wide-spread", format!("{} {}; a={:?} b={:?}", name, o.describe(), az, bz)); return; }
+        }
+    }
+    st.count("wide-spread-product-cases");
+}
+
 fn alias_and_history(st: &mut Stats, rng: &mut Rng) {
     st.next_case();
     fn norm(mut c: Vec<Rat>) -> Vec<Rat> { while c.last().map_or(false, |x| x.is_zero()) { c.pop(); } c }
@@ -897,6 +937,7 @@ pub fn run(ctx: &Ctx) -> Report {
                 judge::<CRat>(st, cl, &cs);
                 alias_and_history(st, rng);
                 huge_points(st, rng);
+                wide_spread_products(st, rng);
             }
         }
     });
